@@ -573,11 +573,14 @@ def parseSegsG (tc : TmplC) (cu : Culture) : List Seg → Text → Bucket → R 
       | some t =>
         parseSegsG tc cu segs l' ((((b.set .hours24 (ltHour t)).set .minutes (ltMinute t)).set .seconds (ltSecond t)).set .fraction (ltNano t))
 
+def hasCalendarStep (steps : List Step) : Bool := steps.any (fun s => s == .calendar)
+
 /-- does a pattern with embedded parts have the calendar field (as a plain step or inside an embedded date pattern)? -/
-def segsUseCalendar (used : Nat) (segs : List Seg) : Bool :=
-  hasAny used F.calendar || segs.any fun sg => match sg with
-    | .date c => hasAny c.used F.calendar
-    | _ => false
+def segsUseCalendar (segs : List Seg) : Bool :=
+  segs.any fun sg => match sg with
+    | .plain ss => hasCalendarStep ss
+    | .date c => hasCalendarStep c.steps
+    | .time _ => false
 
 def parseSegmentedG (tc : TmplC) (cu : Culture) (used : Nat) (segs : List Seg) (l : Text) : R (Option (List Int)) :=
   if l = [] then .ok none else
@@ -638,10 +641,10 @@ def bucketValue (ty : PType) (used : Nat) (b : Bucket) : R (Option (List Int)) :
 
 /-- the type whose bucket evaluates a compiled pattern: a LocalDate / LocalDateTime pattern of an ISO template WITH the
     calendar field `c` is evaluated by the all-calendar bucket (the calendar read from the text decides) -/
-def evalType (ty : PType) (used : Nat) : PType :=
+def evalType (ty : PType) (steps : List Step) : PType :=
   match ty with
-  | .date => if hasAny used F.calendar then .dateC TmplC.default else .date
-  | .datetime tm => if hasAny used F.calendar then .datetimeC tm.toC else .datetime tm
+  | .date => if hasCalendarStep steps then .dateC TmplC.default else .date
+  | .datetime tm => if hasCalendarStep steps then .datetimeC tm.toC else .datetime tm
   | t => t
 
 /-- `__SteppedPattern.parse`: empty text, parse actions, `calculate_value`, end of text (by position) -/
@@ -655,6 +658,12 @@ def parseCompiled (ty : PType) (c : Compiled) (l : Text) : R (Option (List Int))
     | .error e => .error e
     | .ok none => .ok none
     | .ok (some v) => if rest = [] then .ok (some v) else .ok none
+
+/-- a pattern object without the calendar field (plain or inside an embedded date pattern) -/
+def patNoCal : Pat → Bool
+  | .stepped c => !hasCalendarStep c.steps
+  | .segmented _ _ segs => !segsUseCalendar segs
+  | _ => true
 
 mutual
 /-- `format` of a pattern object; composites are the Offset `g`/`i` triples (long, medium, short) whose format
@@ -682,12 +691,12 @@ end
 mutual
 /-- `parse` of a pattern object -/
 def parsePat (ty : PType) (l : Text) : Pat → R (Option (List Int))
-  | .stepped c => parseCompiled (evalType ty c.used) c l
+  | .stepped c => parseCompiled (evalType ty c.steps) c l
   | .zprefix p => if l = ['Z'] then .ok (some [0]) else parsePat ty l p
   | .composite ps => if l = [] then .ok none else parsePats ty l ps
   | .segmented cu used segs =>
     match ty with
-    | .datetime tm => if segsUseCalendar used segs then parseSegmentedG tm.toC cu used segs l else parseSegmented tm cu used segs l
+    | .datetime tm => if segsUseCalendar segs then parseSegmentedG tm.toC cu used segs l else parseSegmented tm cu used segs l
     | .datetimeC tc => parseSegmentedG tc cu used segs l
     | _ => .error .runtimeError
 /-- composite: the first pattern that succeeds; every failure on a non-empty text continues -/
